@@ -118,6 +118,7 @@ namespace link_layer {
                 impl()
                     : has_key_( false )
                     , encryption_in_progress_( false )
+                    , start_enc_req_send_( false )
                 {}
 
                 LinkLayer& that()
@@ -136,6 +137,7 @@ namespace link_layer {
                     if ( opcode == LinkLayer::LL_ENC_REQ && size == 23 )
                     {
                         encryption_in_progress_ = true;
+                        start_enc_req_send_     = false;
                         fill< layout_t >( write, { LinkLayer::ll_control_pdu_code, 1 + 8 + 4, LinkLayer::LL_ENC_RSP } );
 
                         const std::uint8_t* const pdu_body = layout_t::body( pdu ).first;
@@ -159,6 +161,12 @@ namespace link_layer {
                     }
                     else if ( opcode == LinkLayer::LL_START_ENC_RSP && size == 1 )
                     {
+                        // LL_START_ENC_RSP is only part of an encryption start procedure, if this device
+                        // had a key for the request and already sent the LL_START_ENC_REQ
+                        if ( !start_enc_req_send_ )
+                            return false;
+
+                        start_enc_req_send_ = false;
                         fill< layout_t >( write, { LinkLayer::ll_control_pdu_code, 1, LinkLayer::LL_START_ENC_RSP } );
                         that().start_transmit_encrypted();
                         encryption_changed = that().connection_data_.is_encrypted( true );
@@ -212,6 +220,7 @@ namespace link_layer {
 
                         that().start_receive_encrypted();
                         that().commit_ll_transmit_buffer( out_buffer );
+                        start_enc_req_send_ = true;
                     }
                     else
                     {
@@ -224,6 +233,10 @@ namespace link_layer {
 
                 void reset_encryption()
                 {
+                    has_key_                = false;
+                    encryption_in_progress_ = false;
+                    start_enc_req_send_     = false;
+
                     that().connection_data_.is_encrypted( false );
                     that().stop_receive_encrypted();
                     that().stop_transmit_encrypted();
@@ -232,6 +245,7 @@ namespace link_layer {
             private:
                 bool has_key_;
                 bool encryption_in_progress_;
+                bool start_enc_req_send_;
             };
 
             using link_state = bluetoe::details::link_state;
